@@ -218,6 +218,9 @@ class SymKit:
     def tnone(self, v):
         return v
 
+    def ttuple(self, vals):
+        return tuple(vals)
+
 
 class RealKit:
     sym = False
@@ -248,6 +251,10 @@ class RealKit:
 
     def tnone(self, v):
         return None if np.isnat(v) else v
+
+    def ttuple(self, vals):
+        import pandas as pd
+        return tuple(pd.Timestamp(v) for v in vals)
 
     def scalar(self, v):
         return v
